@@ -852,3 +852,10 @@ class SecureHomeKitConnection(HomeKitConnection):
 
         if self.owner:
             await self.owner.connection_made(True)
+
+        if self.transport is None:
+            # The connection was lost while the owner was still being notified
+            # (e.g. reset during re-subscription). The loss callback saw this
+            # connector still running and started nothing, so fail the attempt
+            # to make the reconnect loop try again.
+            raise AccessoryDisconnectedError("Connection lost during connection setup")
